@@ -87,9 +87,9 @@ theorem collect_lists {rec : Frame → Out} {P : Prog} {wh : Where} :
         · exact Or.inr (Or.inr ⟨u, List.mem_cons_self, h3⟩)
       · exact Or.inr (Or.inl ⟨u', List.mem_cons_of_mem _ hu', h2⟩)
       · exact Or.inr (Or.inr ⟨u', List.mem_cons_of_mem _ hu', h2⟩)
-    have fwd : ∀ (k : Nat) (g : List String) (r : List Param) (l : Bool × List Param),
-        l ∈ (addForward a k g r).lists → l ∈ a.lists ∨ l.2 = removeGiven k g r := by
-      intro k g r l hl
+    have fwd : ∀ (k : Nat) (g : List String) (r : List Param) (b : Bool) (l : Bool × List Param),
+        l ∈ (addForward a k g r b).lists → l ∈ a.lists ∨ l.2 = removeGiven k g r := by
+      intro k g r b l hl
       simp only [addForward] at hl
       split at hl
       · exact Or.inl hl
@@ -124,7 +124,7 @@ theorem collect_lists {rec : Frame → Out} {P : Prog} {wh : Where} :
         simp only [hs] at h
         refine lift h ?_
         intro l hl
-        rcases fwd k g [] l hl with hl | hl
+        rcases fwd k g [] _ l hl with hl | hl
         · exact Or.inl hl
         · exact Or.inr (Or.inr ⟨rfl, Or.inl ⟨by simp [subFrame, hs], hl⟩⟩)
       | some fr =>
@@ -136,7 +136,7 @@ theorem collect_lists {rec : Frame → Out} {P : Prog} {wh : Where} :
           simp only [hr] at h
           refine lift h ?_
           intro l hl
-          rcases fwd k g r l hl with hl | hl
+          rcases fwd k g r _ l hl with hl | hl
           · exact Or.inl hl
           · exact Or.inr (Or.inr ⟨rfl, Or.inr ⟨fr, r, by simp [subFrame, hs], hr, hl⟩⟩)
     | call t k g =>
@@ -146,7 +146,7 @@ theorem collect_lists {rec : Frame → Out} {P : Prog} {wh : Where} :
         simp only [hs] at h
         refine lift h ?_
         intro l hl
-        rcases fwd k g [] l hl with hl | hl
+        rcases fwd k g [] _ l hl with hl | hl
         · exact Or.inl hl
         · exact Or.inr (Or.inr ⟨rfl, Or.inl ⟨by simp [subFrame, hs], hl⟩⟩)
       | some fr =>
@@ -158,7 +158,7 @@ theorem collect_lists {rec : Frame → Out} {P : Prog} {wh : Where} :
           simp only [hr] at h
           refine lift h ?_
           intro l hl
-          rcases fwd k g r l hl with hl | hl
+          rcases fwd k g r _ l hl with hl | hl
           · exact Or.inl hl
           · exact Or.inr (Or.inr ⟨rfl, Or.inr ⟨fr, r, by simp [subFrame, hs], hr, hl⟩⟩)
 
